@@ -314,8 +314,6 @@ def op_feature(op, combo, kind, cls, msg):
         return "duration_on_sqlite_mssql"
     if op.name.startswith("dur.") and kind == "postgres":
         return "postgres_dur_impl_returns_none"
-    if op.name == "clip" and kind == "pol" and types_ & {"String", "Bool"}:
-        return "clip_on_non_numeric"
     return f"op:{op.name}:{kind}:{cls}"
 
 
